@@ -10,8 +10,9 @@ import (
 
 // RaceReport is one "WARNING: DATA RACE" block from a GORACE log.
 type RaceReport struct {
-	Sig  string
-	Text string
+	Sig   string
+	Text  string
+	Index int
 }
 
 var frameRe = regexp.MustCompile(`^\s+([^\s(]+(?:\([^)]*\))?[^\s(]*)\(`)
